@@ -20,10 +20,11 @@ def floatRationalExponent : List (String × String) :=
 
 def unicodeAscii : List (String × String) :=
   [("µm", "um"), ("μm", "um"), ("µm", "μm"), ("µs", "us"), ("Ω", "ohm"), ("kΩ", "kohm"), ("Å", "angstrom"),
-   ("°", "deg"), ("°", "degree"), ("°C", "degC"), ("°F", "degF"), ("%", "percent"), ("µm/Ω**2", "um/ohm**2")]
+   ("°", "deg"), ("°", "degree"), ("°C", "degC"), ("°F", "degF"), ("%", "percent"), ("µm/Ω**2", "um/ohm**2"),
+   ("Δ°C", "delta_degC"), ("Δ°F", "delta_degF"), ("Δ°C/°F", "delta_degC/degF")]
 
-/-- symbols whose `str()` does not parse back (findings `reparse|str|raises:UnitParseError|symbol:*`) -/
-def strNotReparsed : List String := ["delta_degC", "delta_degF"]
+/-- symbols whose `str()` does not parse back: none since fix C20-01 (`Δ°C`, `Δ°F` are read back) -/
+def strNotReparsed : List String := []
 
 end Unyt.Ref.C20
 
